@@ -300,12 +300,19 @@ func c33(c *Ctx) {
 			want := []string{"s.active[" + c33P + "makeRouteIdentityKey(route)]#0", "s.active[*]#0"}
 			var srcBad []string
 			srcs := instrsMatching(touchFn, StoreTo{Addr: base})
+			if len(srcs) == 0 && globAny(want, base) {
+				// ‹active› is a read-only local (or no local at all): it renders as the lookup itself
+				c.add("shape", "R5-expiry", c.P.Name(touchFn)+"#clamp-source", Held, c.P.InstrPos(ins[0]), "LastSeenUnix is clamped to the LastSeenUnix of "+base)
+				srcs = nil
+				want = nil
+			}
 			for _, in := range srcs {
 				if st, ok := in.(*ssa.Store); !ok || !globAny(want, Path(st.Val)) {
 					srcBad = append(srcBad, c.P.InstrPos(in))
 				}
 			}
 			switch construct := c.P.Name(touchFn) + "#clamp-source"; {
+			case want == nil: // decided above
 			case len(srcs) == 0:
 				c.add("shape", "R5-expiry", construct, Undecided, c.P.InstrPos(ins[0]), "the value LastSeenUnix is clamped to ("+E+") is never assigned (vacuous)")
 			case len(srcBad) > 0:
